@@ -214,6 +214,7 @@ func cell(t *testing.T, prop, kind, cellName string, n int, draw func(*rapid.T) 
 	if n <= 0 {
 		return
 	}
+	cellName = strings.ReplaceAll(cellName, " ", "_") // the driver parses "cell=<name> msg=" lines
 	cellIdx := rec.Cells
 	rec.Cells++
 	if cellIdx%cfg.NShards != cfg.Shard {
